@@ -86,12 +86,13 @@ def open_circuit_impedance(network: Network, node1: str, node2: str, node_index_
     if network.is_zero_node(node1):
         node1, node2 = node2, node1
     network = trf.switch_ground_node(network=network, new_ground=node2)
-    Y = node_admittance_matrix(network, node_index_mapper=node_index_mapper)
-    Y = np.delete(Y, np.where(~Y.any(axis=0))[0], axis=1)
-    Y = np.delete(Y, np.where(~Y.any(axis=1))[0], axis=0)
-    Z = np.linalg.inv(Y)
-    i1 = node_index_mapper(network)[node1]
-    return Z[i1][i1]
+    A = nodal_analysis_coefficient_matrix(network, node_mapper=node_index_mapper)
+    keep = A.any(axis=0)
+    i1 = int(np.count_nonzero(keep[:node_index_mapper(network)[node1]]))
+    A = A[np.ix_(keep, keep)]
+    unit_current = np.zeros(A.shape[0], dtype=complex)
+    unit_current[i1] = 1
+    return np.linalg.solve(A, unit_current)[i1]
 
 def element_impedance(network: Network, element: str, node_index_mapper: map.NetworkMapper = map.default_node_mapper) -> complex:
     return open_circuit_impedance(
